@@ -16,11 +16,13 @@ import (
 	"os"
 	"path/filepath"
 	"regexp"
+	"runtime/debug"
 	"sort"
 	"strconv"
 	"strings"
 	"time"
 
+	"github.com/kubewharf/apiserver-runtime/pkg/registry"
 	apiequality "k8s.io/apimachinery/pkg/api/equality"
 	apimachineryvalidation "k8s.io/apimachinery/pkg/api/validation"
 	metav1 "k8s.io/apimachinery/pkg/apis/meta/v1"
@@ -29,6 +31,8 @@ import (
 	utilerrors "k8s.io/apimachinery/pkg/util/errors"
 	"k8s.io/apimachinery/pkg/util/validation/field"
 	"k8s.io/apiserver/pkg/admission"
+	"k8s.io/apiserver/pkg/authentication/user"
+	"k8s.io/apiserver/pkg/authorization/authorizer"
 	"k8s.io/client-go/rest"
 	"k8s.io/client-go/tools/cache"
 	certutil "k8s.io/client-go/util/cert"
@@ -154,7 +158,11 @@ type mOutcome struct {
 type mSize [4]interface{} // name(hex), type, n, burst
 
 type modelOut struct {
-	Admitted                             []string
+	Admitted, Endpoints []string
+	Resolved            []struct {
+		Upstreams, Loaded []string
+		Limiter           [3]interface{}
+	}
 	Core, CoreAlt, Validate, ValidateAlt mValidate
 	Valid, Usable                        bool
 	Classes                              map[string]bool
@@ -370,7 +378,17 @@ func (o outcome) String() string { return o.K + "(" + o.What + ")" }
 
 func guard(f func() error) outcome {
 	var err error
-	if msg, p := rig.Recover(func() { err = f() }); p {
+	if msg, p := rig.Recover(func() {
+		if os.Getenv("VERIF_C16_DEBUG") != "" {
+			defer func() {
+				if r := recover(); r != nil {
+					fmt.Fprintf(os.Stderr, "panic: %v\n%s\n", r, debug.Stack())
+					panic(r)
+				}
+			}()
+		}
+		err = f()
+	}); p {
 		return outcome{"panic", msg}
 	}
 	if err != nil {
@@ -379,13 +397,19 @@ func guard(f func() error) outcome {
 	return outcome{"ok", ""}
 }
 
+// attrsFor: the admission attributes of the operation. "create"; "update" (old object supplied); "update-no-old"
+// (an Update whose attributes carry no old object); "status" (an Update through the status subresource).
 func attrsFor(o, old *proxyv1alpha1.UpstreamCluster, op string) admission.Attributes {
-	if op == "update" && old != nil {
-		return admission.NewAttributesRecord(o, old, gv.WithKind("UpstreamCluster"), "", o.Name, gv.WithResource("upstreamclusters"), "",
-			admission.Update, &metav1.UpdateOptions{}, false, nil)
+	kind, res := gv.WithKind("UpstreamCluster"), gv.WithResource("upstreamclusters")
+	switch {
+	case op == "update" && old != nil:
+		return admission.NewAttributesRecord(o, old, kind, "", o.Name, res, "", admission.Update, &metav1.UpdateOptions{}, false, nil)
+	case op == "update-no-old":
+		return admission.NewAttributesRecord(o, nil, kind, "", o.Name, res, "", admission.Update, &metav1.UpdateOptions{}, false, nil)
+	case op == "status" && old != nil:
+		return admission.NewAttributesRecord(o, old, kind, "", o.Name, res, "status", admission.Update, &metav1.UpdateOptions{}, false, nil)
 	}
-	return admission.NewAttributesRecord(o, nil, gv.WithKind("UpstreamCluster"), "", o.Name, gv.WithResource("upstreamclusters"), "",
-		admission.Create, &metav1.CreateOptions{}, false, nil)
+	return admission.NewAttributesRecord(o, nil, kind, "", o.Name, res, "", admission.Create, &metav1.CreateOptions{}, false, nil)
 }
 
 func pluginFor(known []KnownW) admission.Interface {
@@ -461,10 +485,7 @@ func controllerSync(o *proxyv1alpha1.UpstreamCluster) outcome {
 		if res.RequeueAfter != 0 || res.Requeue {
 			return fmt.Errorf("requeue after %v", res.RequeueAfter)
 		}
-		if _, ok := m.Get(strings.ToLower(o.Name)); !ok {
-			return fmt.Errorf("cluster not registered in the manager")
-		}
-		return nil
+		return namesResolve(m, o)
 	})
 	rig.Recover(func() {
 		if info, ok := m.Get(strings.ToLower(o.Name)); ok {
@@ -473,6 +494,21 @@ func controllerSync(o *proxyv1alpha1.UpstreamCluster) outcome {
 		m.DeleteAll()
 	})
 	return out
+}
+
+// namesResolve: the cluster is served under its name and under every alias the object gives it (host names are
+// looked up lower-cased)
+func namesResolve(m *controllers.UpstreamClusterController, o *proxyv1alpha1.UpstreamCluster) error {
+	for _, n := range append([]string{o.Name}, o.Spec.SecureServing.ServerNames...) {
+		info, ok := m.Get(strings.ToLower(n))
+		if !ok {
+			return fmt.Errorf("cluster not registered in the manager under %q", strings.ToLower(n))
+		}
+		if info.Cluster != strings.ToLower(o.Name) {
+			return fmt.Errorf("name %q resolves to cluster %q", strings.ToLower(n), info.Cluster)
+		}
+	}
+	return nil
 }
 
 // controllerAmongOthers: a gateway that already serves the OTHER clusters of the lister (each applied in turn by the
@@ -506,9 +542,11 @@ func controllerAmongOthers(o, old *proxyv1alpha1.UpstreamCluster, known []KnownW
 		}
 		if old != nil {
 			m.VerifC16Sync(lobj) //nolint
-			indexer.Update(o)    //nolint
 		}
 	})
+	if old != nil {
+		indexer.Update(o) //nolint
+	}
 	out = guard(func() error {
 		res, err := m.VerifC16Sync(o)
 		if err != nil {
@@ -517,10 +555,7 @@ func controllerAmongOthers(o, old *proxyv1alpha1.UpstreamCluster, known []KnownW
 		if res.RequeueAfter != 0 || res.Requeue {
 			return fmt.Errorf("requeue after %v", res.RequeueAfter)
 		}
-		if info, ok := m.Get(strings.ToLower(o.Name)); !ok || info.Cluster != strings.ToLower(o.Name) {
-			return fmt.Errorf("cluster not registered in the manager")
-		}
-		return nil
+		return namesResolve(m, o)
 	})
 	rig.Recover(func() {
 		for _, x := range append(objs, o) {
@@ -699,6 +734,134 @@ func remoteAboveGlobal(info *clusters.ClusterInfo, w ClusterW) string {
 	return ""
 }
 
+// resolved: what the applied configuration does for the requests of one dispatch policy
+type resolved struct {
+	Upstreams []string `json:"upstreams"` // hex, as the picker holds them
+	Loaded    []string `json:"loaded"`    // hex, the ones Pop can load
+	Limiter   string   `json:"limiter"`   // "type n burst"
+	Name      string   `json:"name"`
+	Pop       string   `json:"pop"` // after every endpoint was reported healthy: the endpoint popped, or "err: ..."
+}
+
+// resolution asks the real cluster what every dispatch policy with rules resolves to (a request for resource
+// "r<i>" matches policy i only) and, once every endpoint has been reported healthy, what Pop answers.
+func resolution(info *clusters.ClusterInfo, o *proxyv1alpha1.UpstreamCluster) (endpoints []string, res map[int]resolved, what string) {
+	res = map[int]resolved{}
+	out := guard(func() error {
+		endpoints = append([]string{}, info.AllEndpoints()...)
+		sort.Strings(endpoints)
+		clusters.VerifC16MarkHealthy(info)
+		for i, p := range o.Spec.DispatchPolicies {
+			if len(p.Rules) == 0 {
+				continue
+			}
+			a := authorizer.AttributesRecord{User: &user.DefaultInfo{Name: "u", Groups: []string{"g"}}, Verb: "get", APIGroup: "", APIVersion: "v1",
+				Resource: fmt.Sprintf("r%d", i), ResourceRequest: true, Path: fmt.Sprintf("/api/v1/r%d", i)}
+			ups, loaded, name, lim, picker, err := clusters.VerifC16Resolve(info, a)
+			if err != nil {
+				return fmt.Errorf("policy %d: MatchAttributes: %v", i, err)
+			}
+			r := resolved{Upstreams: hxl(ups), Loaded: hxl(loaded), Name: name, Limiter: strings.Join(strings.Fields(sizeOf("x", func() string { return lim }))[1:], " ")}
+			if lim == "nil" {
+				r.Limiter = "nil 0 0"
+			}
+			if ep, err := picker.Pop(); err != nil {
+				r.Pop = "err: " + err.Error()
+			} else {
+				r.Pop = hx(ep.Endpoint)
+			}
+			res[i] = r
+		}
+		return nil
+	})
+	if out.K != "ok" {
+		what = out.String()
+	}
+	return
+}
+
+func sorted(l []string) []string {
+	r := append([]string{}, l...)
+	sort.Strings(r)
+	return r
+}
+
+func sortedSet(l []string) []string {
+	r := append([]string{}, l...)
+	sort.Strings(r)
+	return uniq(r)
+}
+
+// judgeResolution: on an applied ACCEPTED object the cluster holds exactly the endpoints the object names (each
+// under the string the object uses), every policy's picker holds exactly its subset (else all endpoints), Pop can
+// load each of them and - all endpoints healthy - answers one of the enabled ones (an error only when none is
+// enabled); the policy's limiter is the configured one.
+func judgeResolution(w ClusterW, endpoints []string, res map[int]resolved) string {
+	want := []string{}
+	enabled := map[string]bool{}
+	for _, s := range w.Servers {
+		want = append(want, uh(s.Endpoint))
+		if _, seen := enabled[s.Endpoint]; !seen {
+			enabled[s.Endpoint] = true
+		}
+		if s.Disabled != nil && *s.Disabled {
+			enabled[s.Endpoint] = false
+		}
+	}
+	if !eqS(sortedSet(endpoints), sortedSet(want)) {
+		return fmt.Sprintf("the cluster holds the endpoints %q, the object names %q", sortedSet(endpoints), sortedSet(want))
+	}
+	local, _ := configuredSizes(w)
+	limiterOf := map[string]string{}
+	for _, l := range local {
+		f := strings.Fields(l)
+		limiterOf[strings.Join(f[:len(f)-3], " ")] = strings.Join(f[len(f)-3:], " ")
+	}
+	for i, p := range w.Policies {
+		r, ok := res[i]
+		if !ok {
+			return fmt.Sprintf("policy %d is not reachable", i)
+		}
+		exp := p.UpstreamSubset
+		if len(exp) == 0 {
+			exp = hxl(sortedSet(want))
+		}
+		if !eqS(sortedSet(r.Upstreams), sortedSet(exp)) {
+			return fmt.Sprintf("policy %d resolves to the upstreams %q, the object says %q", i, uhl(r.Upstreams), uhl(exp))
+		}
+		if !eqS(sorted(r.Loaded), sorted(r.Upstreams)) {
+			return fmt.Sprintf("policy %d: of its upstreams %q the cluster knows only %q", i, uhl(r.Upstreams), uhl(r.Loaded))
+		}
+		anyEnabled := false
+		for _, u := range r.Upstreams {
+			anyEnabled = anyEnabled || enabled[u]
+		}
+		switch {
+		case strings.HasPrefix(r.Pop, "err: ") && anyEnabled:
+			return fmt.Sprintf("policy %d: every endpoint is healthy, yet Pop fails: %s (upstreams %q)", i, r.Pop, uhl(r.Upstreams))
+		case !strings.HasPrefix(r.Pop, "err: "):
+			in := false
+			for _, u := range r.Upstreams {
+				in = in || u == r.Pop
+			}
+			if !in || !enabled[r.Pop] {
+				return fmt.Sprintf("policy %d: Pop answers %q, which is not an enabled endpoint of %q", i, uh(r.Pop), uhl(r.Upstreams))
+			}
+		}
+		expLim, expName := "Exempt 0 0", "system-default"
+		if n := uh(p.FlowControlSchemaName); n != "" {
+			expName = n
+			if l, ok := limiterOf[n]; ok {
+				expLim = l
+			}
+		}
+		if r.Limiter != expLim || r.Name != expName {
+			return fmt.Sprintf("policy %d is limited by %q (%s), the object says %q (%s)", i, r.Name, r.Limiter, expName, expLim)
+		}
+	}
+	return ""
+}
+
 // ---- one case -------------------------------------------------------------------------------------------------
 
 type verdict struct {
@@ -749,13 +912,15 @@ func run(c *rig.Ctx, cs Case) verdict {
 		cs.Prev = &p
 		all = append(all, p)
 	}
-	if cs.Op != "update" || cs.Prev == nil {
-		cs.Op = "create"
-	} else {
-		// an update: the lister holds the stored (old) object
+	switch {
+	case cs.Prev != nil && (cs.Op == "update" || cs.Op == "update-no-old" || cs.Op == "status"):
+		// a write to an existing object: the lister holds the stored (old) object
 		cs.Known = append(cs.Known, KnownW{Name: cs.Prev.Name, ServerNames: cs.Prev.Serving.ServerNames})
+	default:
+		cs.Op = "create"
 	}
 	cs.Known = normKnown(cs.Known)
+	req := cs.Cluster // what the model is given: the request as submitted
 
 	// 0. the admission chain starts with Admit (judge: no panic); the admitted object is validated and stored
 	obj, aout := pluginAdmit(submitted, prevObj, cs.Op, cs.Known)
@@ -764,6 +929,30 @@ func run(c *rig.Ctx, cs Case) verdict {
 	}
 	if aout.K != "ok" {
 		return fail("diff", "c16.admit", "Admit failed: "+aout.What, aout.String(), nil)
+	}
+	admittedObj := obj.DeepCopy()
+	if cs.Op == "status" {
+		// the generic registry between mutating and validating admission: the status strategy's PrepareForUpdate
+		// (stored spec and labels, everything else - the annotations - from the request)
+		if out := guard(func() error {
+			registry.NewDefaultStatusRESTStrategy(false).PrepareForUpdate(context.Background(), obj, prevObj.DeepCopy())
+			return nil
+		}); out.K != "ok" {
+			return fail("diff", "c16.status-prepare", "PrepareForUpdate of the status strategy: "+out.String(), out.String(), nil)
+		}
+		// the same on the wire form, which the later stages read (the model computes it itself)
+		pw := cs.Cluster
+		pw.Servers, pw.Client, pw.Serving, pw.Schemas, pw.LoggingMode, pw.Policies, pw.Labels = cs.Prev.Servers, cs.Prev.Client, cs.Prev.Serving,
+			cs.Prev.Schemas, cs.Prev.LoggingMode, cs.Prev.Policies, cs.Prev.Labels
+		if exp := pw.Object(); !apiequality.Semantic.DeepEqual(exp.Spec, obj.Spec) || !apiequality.Semantic.DeepEqual(exp.ObjectMeta, obj.ObjectMeta) {
+			return fail("diff", "c16.status-prepare", "the status strategy stores something else than the old spec and labels with the request's metadata on "+cs.Cluster.Summary(), rig.Canon(obj), rig.Canon(exp))
+		}
+		cs.Cluster = pw
+		// object meta is judged on what is about to be stored
+		req.MetaErrs = metaErrs(obj)
+		cs.Cluster.MetaErrs = req.MetaErrs
+		all[0] = cs.Cluster
+		all = append(all, req)
 	}
 	env, broken := tables(all)
 	if broken != "" {
@@ -784,28 +973,11 @@ func run(c *rig.Ctx, cs Case) verdict {
 
 	// 2. the model and the spec
 	var m modelOut
-	args := map[string]interface{}{"env": env, "known": cs.Known, "cluster": cs.Cluster, "prev": cs.Prev, "op": cs.Op}
+	args := map[string]interface{}{"env": env, "known": cs.Known, "cluster": req, "prev": cs.Prev, "op": cs.Op}
 	if err := c.Model("C16.run", args, &m); err != nil {
 		return fail("diff", "c16.model-error", "model error: "+err.Error(), nil, err.Error())
 	}
 	v := verdict{ok: true, accepted: accepted}
-
-	// 2a. correspondence of Admit: strategies defaulted as the model says, nothing else of the object changed
-	got := []string{}
-	exp := submitted.DeepCopy()
-	for i, p := range obj.Spec.DispatchPolicies {
-		got = append(got, hx(string(p.Strategy)))
-		exp.Spec.DispatchPolicies[i].Strategy = p.Strategy
-	}
-	if m.Admitted == nil {
-		m.Admitted = []string{}
-	}
-	if !eqS(got, m.Admitted) {
-		return fail("diff", "c16.admit", fmt.Sprintf("Admit: policy strategies code %q, model %q", uhl(got), uhl(m.Admitted)), got, m.Admitted)
-	}
-	if !apiequality.Semantic.DeepEqual(exp.Spec, obj.Spec) || !apiequality.Semantic.DeepEqual(exp.ObjectMeta, obj.ObjectMeta) {
-		return fail("diff", "c16.admit", "Admit changed more than policy strategies (and the normal form of the rules) on "+cs.Cluster.Summary(), rig.Canon(obj.Spec), rig.Canon(exp.Spec))
-	}
 
 	// 3. judge: what the real validation accepts is valid by the declarative spec (the listed classes are rejected)
 	if accepted && !m.Valid && os.Getenv("VERIF_C16_CONSUMERS_ONLY") == "" { // (dev switch: let the consumer stages judge alone)
@@ -824,6 +996,23 @@ func run(c *rig.Ctx, cs Case) verdict {
 			}
 		}
 		return fail("judge", "c16.accepted-invalid."+cl, fmt.Sprintf("admission (%s) accepts an object that must be rejected (failed %v): %s", cs.Op, bad, cs.Cluster.Summary()), "accepted", bad)
+	}
+
+	// 2a. correspondence of Admit: strategies defaulted as the model says, nothing else of the object changed
+	got := []string{}
+	exp := submitted.DeepCopy()
+	for i, p := range admittedObj.Spec.DispatchPolicies {
+		got = append(got, hx(string(p.Strategy)))
+		exp.Spec.DispatchPolicies[i].Strategy = p.Strategy
+	}
+	if m.Admitted == nil {
+		m.Admitted = []string{}
+	}
+	if !eqS(got, m.Admitted) {
+		return fail("diff", "c16.admit", fmt.Sprintf("Admit: policy strategies code %q, model %q", uhl(got), uhl(m.Admitted)), got, m.Admitted)
+	}
+	if !apiequality.Semantic.DeepEqual(exp.Spec, admittedObj.Spec) || !apiequality.Semantic.DeepEqual(exp.ObjectMeta, admittedObj.ObjectMeta) {
+		return fail("diff", "c16.admit", "Admit changed more than policy strategies (and the normal form of the rules) on "+cs.Cluster.Summary(), rig.Canon(admittedObj.Spec), rig.Canon(exp.Spec))
 	}
 
 	// 4. correspondence of the error lists: multiset of (type, path) for ValidateUpstreamCluster, set for the plugin
@@ -867,13 +1056,43 @@ consumers:
 
 	// 5a. CreateClusterInfo, local mode
 	info, out := createPiecewise(obj, "")
-	var sizes []string
+	var sizes, eps []string
+	var res map[int]resolved
+	resWhat := ""
 	if out.K == "ok" {
 		sizes = localSizes(info)
+		eps, res, resWhat = resolution(info, obj)
 	}
 	clusters.VerifC16Stop(info)
 	if f := stage("create", out, m.CreateLocal, true); f != nil {
 		return *f
+	}
+	if out.K == "ok" {
+		// what the applied configuration does
+		if accepted {
+			if resWhat == "" {
+				resWhat = judgeResolution(cs.Cluster, eps, res)
+			}
+			if resWhat != "" {
+				return fail("judge", "c16.applied-resolution", "accepted object applied (create): "+resWhat+": "+cs.Cluster.Summary(), resWhat, nil)
+			}
+		}
+		if resWhat == "" {
+			if me := sortedSet(uhl(m.Endpoints)); !eqS(sortedSet(eps), me) {
+				return fail("diff", "c16.endpoints", fmt.Sprintf("endpoints held after create: code %q, model %q on %s", eps, me, cs.Cluster.Summary()), eps, me)
+			}
+			for i, r := range res {
+				if i >= len(m.Resolved) {
+					return fail("diff", "c16.resolution", fmt.Sprintf("policy %d: the model holds %d policies", i, len(m.Resolved)), r, nil)
+				}
+				mr := m.Resolved[i]
+				ml := fmt.Sprintf("%v %s %s", mr.Limiter[0], num(mr.Limiter[1]), num(mr.Limiter[2]))
+				// (the order of "all endpoints" is the order of a Go map)
+				if !eqS(sorted(r.Upstreams), sorted(mr.Upstreams)) || !eqS(sorted(r.Loaded), sorted(mr.Loaded)) || r.Limiter != ml {
+					return fail("diff", "c16.resolution", fmt.Sprintf("policy %d resolves to: code %q loaded %q limiter %s, model %q loaded %q limiter %s on %s", i, uhl(r.Upstreams), uhl(r.Loaded), r.Limiter, uhl(mr.Upstreams), uhl(mr.Loaded), ml, cs.Cluster.Summary()), r, mr)
+				}
+			}
+		}
 	}
 	if out.K == "ok" {
 		if accepted && !eqS(sizes, wantLocal) {
@@ -899,10 +1118,20 @@ consumers:
 		if pout.K == "ok" {
 			uout := guard(func() error { return pinfo.Sync(obj) })
 			var usizes []string
+			uresWhat := ""
 			if uout.K == "ok" {
 				usizes = localSizes(pinfo)
+				if accepted {
+					ueps, ures, w := resolution(pinfo, obj)
+					if uresWhat = w; w == "" {
+						uresWhat = judgeResolution(cs.Cluster, ueps, ures)
+					}
+				}
 			}
 			clusters.VerifC16Stop(pinfo)
+			if uresWhat != "" {
+				return fail("judge", "c16.applied-resolution", "accepted object applied as an update: "+uresWhat+": "+cs.Cluster.Summary()+" (previous "+cs.Prev.Summary()+")", uresWhat, nil)
+			}
 			if f := stage("update", uout, mOutcome{m.Update.K, m.Update.What}, true); f != nil {
 				return *f
 			}
@@ -925,9 +1154,9 @@ consumers:
 	}
 
 	// 5c'. the same handler on a gateway that already serves the other clusters (and the old object of an update)
-	if len(cs.Known) > 0 || cs.Op == "update" {
+	if len(cs.Known) > 0 || cs.Op != "create" {
 		var oldForCtl *proxyv1alpha1.UpstreamCluster
-		if cs.Op == "update" {
+		if cs.Op != "create" {
 			oldForCtl = prevObj
 		}
 		if f := stage("controller-among-others", controllerAmongOthers(obj, oldForCtl, cs.Known), m.ControllerOthers, true); f != nil {
@@ -1178,13 +1407,15 @@ func main() {
 			bucket := "rejected:" + label
 			if v.accepted {
 				bucket = "accepted:" + label
-				w := stored(cs.Cluster)
-				lastAccepted = &w
+				if cs.Op != "status" { // (what a status write stores is not the request)
+					w := stored(cs.Cluster)
+					lastAccepted = &w
+				}
 			}
 			if !v.ok {
 				bucket = "failed:" + label
 			}
-			if strings.Count(label, "+") > 0 && !strings.HasPrefix(label, "update:") {
+			if strings.Count(label, "+") > 0 && !strings.HasPrefix(label, "update") && !strings.HasPrefix(label, "status:") {
 				bucket = strings.SplitN(bucket, ":", 2)[0] + ":multi"
 			}
 			c.Case(rig.Canon(cs), v.accepted || label != "wild", bucket, func() interface{} {
